@@ -51,12 +51,7 @@ theorem MInv_same {a b : List Exp} (h : SameExps a b) {m : MFS} (hi : MInv a m) 
   rw [← e1, ← e2]; exact hi y hy
 
 /-- the state after `.params` has been written -/
-def afterParamsM (m : MFS) : MFS := mApplyAll m paramsEvents
-
-theorem afterParamsM_view {m : MFS} (h : m.params = some .good) (i : Nat) : (afterParamsM m).view i = m.view i := by
-  funext p
-  simp only [afterParamsM, paramsEvents, mApplyAll, MFS.apply, Ev.path, Ev.val, if_true, MFS.view]
-  by_cases hp : p = .params <;> simp [hp, h]
+def afterParamsM (m : MFS) : MFS := mApplyAll m (paramsEvents fixed)
 
 /-- a (first or resumed) invocation from a state in which every experiment's folder satisfies the lock invariant —
     fresh: no locks anywhere, `.params` arbitrary; resumed: `.params` intact —: it completes, its events are the two
@@ -66,7 +61,7 @@ theorem run_shape_multi {exps : List Exp} (hw : MWF exps) (rs : Bool) {m : MFS}
     (hJ : ∀ x ∈ exps, J0 x.2.1 (m.view x.1)) (hp : rs = true → m.params = some .good)
     (hcl : rs = false → ∀ x ∈ exps, lockList x.2.1 (m.view x.1) = []) :
     ∃ rest : List MEv,
-      (runMulti fixed exps rs m).evs = paramsEvents ++ rest ∧ (runMulti fixed exps rs m).ok = true ∧
+      (runMulti fixed exps rs m).evs = paramsEvents fixed ++ rest ∧ (runMulti fixed exps rs m).ok = true ∧
       MAllP (MInv exps) (afterParamsM m) rest ∧
       ∀ x ∈ exps, FinOK x.2.1 ((runMulti fixed exps rs m).fs.view x.1) := by
   have hclean : cleanAllEvents fixed rs exps m = [] := by
@@ -78,11 +73,12 @@ theorem run_shape_multi {exps : List Exp} (hw : MWF exps) (rs : Bool) {m : MFS}
       apply List.flatMap_eq_nil_iff.mpr
       intro x hx; rw [hcl rfl x hx]; rfl
   -- the state after `.params`
-  have hview : ∀ i p, p ≠ Path.params → (afterParamsM m).view i p = m.view i p := by
-    intro i p hp'
-    simp [afterParamsM, paramsEvents, mApplyAll, MFS.apply, Ev.path, MFS.view, hp']
+  have hview : ∀ i p, p ≠ Path.params → p ≠ Path.paramsTmp → (afterParamsM m).view i p = m.view i p := by
+    intro i p hp' hp''
+    by_cases hi : i = 0 <;>
+      simp [afterParamsM, paramsEvents, paramsEvs, fixed, mApplyAll, MFS.apply, IsoVerif.Model.Resume.apply, FS.set, Ev.path, MFS.view, hp', hp'', hi]
   have hpar : (afterParamsM m).params = some .good := by
-    simp [afterParamsM, paramsEvents, mApplyAll, MFS.apply, Ev.path, Ev.val]
+    simp [afterParamsM, paramsEvents, paramsEvs, fixed, mApplyAll, MFS.apply, Ev.path, Ev.val]
   have hinv : MInv exps (afterParamsM m) := by
     intro x hx
     refine ⟨by rw [view_params, hpar]; rfl, ?_⟩
@@ -91,7 +87,11 @@ theorem run_shape_multi {exps : List Exp} (hw : MWF exps) (rs : Bool) {m : MFS}
       intro e; subst e; have := mem_guarded_locksOf hd; simp [locksOf] at this
     have hlne : l ≠ .params := by
       intro e; subst e; simp [guarded] at hd
-    simp only [FS.has, FS.good, hview _ _ hdne, hview _ _ hlne] at hl ⊢
+    have hdne' : d ≠ .paramsTmp := by
+      intro e; subst e; have := mem_guarded_locksOf hd; simp [locksOf] at this
+    have hlne' : l ≠ .paramsTmp := by
+      intro e; subst e; simp [guarded] at hd
+    simp only [FS.has, FS.good, hview _ _ hdne hdne', hview _ _ hlne hlne'] at hl ⊢
     exact hJ x hx l hl d hd
   have hload : (rs && !(m.view 0).loadable .params) = false := by
     cases rs with
@@ -113,19 +113,20 @@ theorem empty_view_J0 (cfg : Cfg) (i : Nat) : J0 cfg (MFS.empty.view i) := by
 /-- **crash consistency of an invocation with several experiments**: killed after its parameters were saved — inside
     any experiment —, the folder of *every* experiment is consistent: every lock that exists vouches only for complete,
     correct files, and the shared `.params` is intact -/
-theorem crash_state_invariant_multi {exps : List Exp} (hw : MWF exps) (k : Nat) (hk : 2 ≤ k) :
+theorem crash_state_invariant_multi {exps : List Exp} (hw : MWF exps) (k : Nat) (hk : 4 ≤ k) :
     MInv exps (crashMulti fixed exps MFS.empty k) := by
   obtain ⟨rest, hevs, _, hall, _⟩ := run_shape_multi hw false (m := MFS.empty)
     (fun x _ => empty_view_J0 _ _) (by simp) (fun _ x _ => empty_view_lockList _ _)
-  obtain ⟨k', rfl⟩ : ∃ k', k = k' + 2 := ⟨k - 2, by omega⟩
-  simp only [crashMulti, hevs, paramsEvents, List.cons_append, List.nil_append, List.take_succ_cons, mApplyAll]
+  obtain ⟨k', rfl⟩ : ∃ k', k = (paramsEvents fixed).length + k' := ⟨k - 4, by simp [paramsEvents, paramsEvs, fixed]; omega⟩
+  simp only [crashMulti, hevs]
+  rw [take_length_add, mApplyAll_append]
   exact MAllP_take hall k'
 
 /-- **the property for an invocation with several experiments**: started in a fresh output folder, killed after any
     `k ≥ 2` events of the invocation (inside any experiment), resumed: the resumed invocation completes and the final
     files of every experiment equal those of the uninterrupted invocation -/
 theorem resume_correct_multi {exps exps' : List Exp} (hw : MWF exps) (hw' : MWF exps') (hs : SameExps exps exps')
-    (hne : exps ≠ []) (k : Nat) (hk : 2 ≤ k) : verdictMulti fixed exps exps' MFS.empty k = .equal := by
+    (hne : exps ≠ []) (k : Nat) (hk : 4 ≤ k) : verdictMulti fixed exps exps' MFS.empty k = .equal := by
   have hinv := crash_state_invariant_multi hw k hk
   have hinv' : MInv exps' (crashMulti fixed exps MFS.empty k) := MInv_same hs hinv
   have hpar : (crashMulti fixed exps MFS.empty k).params = some .good := by
@@ -155,12 +156,12 @@ theorem resume_correct_multi {exps exps' : List Exp} (hw : MWF exps) (hw' : MWF 
 
 /-- safety half -/
 theorem resume_never_silently_wrong_multi {exps exps' : List Exp} (hw : MWF exps) (hw' : MWF exps') (hs : SameExps exps exps')
-    (hne : exps ≠ []) (k : Nat) (hk : 2 ≤ k) : verdictMulti fixed exps exps' MFS.empty k ≠ .diff := by
+    (hne : exps ≠ []) (k : Nat) (hk : 4 ≤ k) : verdictMulti fixed exps exps' MFS.empty k ≠ .diff := by
   rw [resume_correct_multi hw hw' hs hne k hk]; decide
 
 /-- liveness half -/
 theorem resume_completes_multi {exps exps' : List Exp} (hw : MWF exps) (hw' : MWF exps') (hs : SameExps exps exps')
-    (hne : exps ≠ []) (k : Nat) (hk : 2 ≤ k) : verdictMulti fixed exps exps' MFS.empty k ≠ .fail := by
+    (hne : exps ≠ []) (k : Nat) (hk : 4 ≤ k) : verdictMulti fixed exps exps' MFS.empty k ≠ .fail := by
   rw [resume_correct_multi hw hw' hs hne k hk]; decide
 
 /-! ### the counter that is not reset: witness; non-vacuity -/
@@ -180,17 +181,17 @@ theorem exps2_wf : MWF exps2 := by
 example : exps2.map (fun x => (x.1, x.2.1.carried)) = [(0, false), (1, true)] := by decide
 
 /-- seeded change B (the counter reset only where reads are collected): killed once the read collection of the
-    *second* experiment has finished (event 107 of the invocation = its stage lock), the resumed invocation reports the
+    *second* experiment has finished (event 109 of the invocation = its stage lock), the resumed invocation reports the
     unaligned reads of both experiments in the second one's tables and exits successfully; killed inside the first
-    experiment (event 16 = its stage lock) nothing is wrong -/
+    experiment (event 18 = its stage lock) nothing is wrong -/
 theorem resume_never_silently_wrong_two_experiments_witness :
-    (runMulti counterNotResetBuggy exps2 false MFS.empty).evs[106]? = some (1, .create .lock) ∧
-    verdictMulti counterNotResetBuggy exps2 exps2 MFS.empty 107 = .diff ∧
-    verdictMulti counterNotResetBuggy exps2 exps2 MFS.empty 16 = .equal := by decide +kernel
+    (runMulti counterNotResetBuggy exps2 false MFS.empty).evs[108]? = some (1, .create .lock) ∧
+    verdictMulti counterNotResetBuggy exps2 exps2 MFS.empty 109 = .diff ∧
+    verdictMulti counterNotResetBuggy exps2 exps2 MFS.empty 18 = .equal := by decide +kernel
 
--- the hypotheses of `resume_correct_multi` are met by a concrete input: 184 events, kill point 107
-example : MWF exps2 ∧ (runMulti fixed exps2 false MFS.empty).evs.length = 184 ∧ 2 ≤ 107 ∧
-    verdictMulti fixed exps2 exps2 MFS.empty 107 = .equal :=
-  ⟨exps2_wf, by decide +kernel, by omega, resume_correct_multi exps2_wf exps2_wf rfl (by decide) 107 (by omega)⟩
+-- the hypotheses of `resume_correct_multi` are met by a concrete input: 186 events, kill point 109
+example : MWF exps2 ∧ (runMulti fixed exps2 false MFS.empty).evs.length = 186 ∧ 4 ≤ 109 ∧
+    verdictMulti fixed exps2 exps2 MFS.empty 109 = .equal :=
+  ⟨exps2_wf, by decide +kernel, by omega, resume_correct_multi exps2_wf exps2_wf rfl (by decide) 109 (by omega)⟩
 
 end IsoVerif.Props.C07Multi
